@@ -23,6 +23,11 @@ def canon(v):
     return json.dumps(v, sort_keys=True, separators=(",", ":"))
 
 
+def crepr_json(v):
+    """JSON text that keeps nested AND top-level key order (order-sensitive comparison)."""
+    return json.dumps(v, separators=(",", ":"))
+
+
 def lookup(dotted, o):
     """Independent dotted lookup. Returns (True, value) or (False, None)."""
     cur = o
@@ -139,29 +144,23 @@ def del_path(o, dotted):
     return False
 
 
-def restrict(o, dotted_keys):
-    """Dictionary holding exactly the given dotted paths of `o` (those present)."""
+def restrict(o, dotted_keys, prefix=""):
+    """Dictionary holding exactly the given dotted paths of `o` (those present), in `o`'s own order.
+
+    A reported path keeps the whole value beneath it; a path that runs through a list keeps the whole
+    list (a list cannot be rebuilt sparsely)."""
+    keys = set(dotted_keys)
     out = {}
-    for k in sorted(dotted_keys):
-        ok, v = lookup(k, o)
-        if not ok:
-            continue
-        # a path through a list index cannot be rebuilt sparsely: keep the whole list
-        segs = k.split(".")
-        cut = None
-        for i in range(1, len(segs) + 1):
-            ok2, v2 = lookup(".".join(segs[:i]), o)
-            if isinstance(v2, list):
-                cut = i
-                break
-        if cut is not None:
-            k = ".".join(segs[:cut])
-            v = lookup(k, o)[1]
-        exist_ok, exist_v = lookup(k, out)
-        if exist_ok and isinstance(exist_v, dict) and isinstance(v, dict):
-            set_path(out, k, overlay(exist_v, v))
-        else:
-            set_path(out, k, copy.deepcopy(v))
+    for k, v in o.items():
+        path = f"{prefix}{k}"
+        if path in keys:
+            out[k] = copy.deepcopy(v)
+        elif any(q.startswith(path + ".") for q in keys):
+            if isinstance(v, dict):
+                sub = restrict(v, keys, path + ".")
+                out[k] = sub
+            elif isinstance(v, list):
+                out[k] = copy.deepcopy(v)
     return out
 
 
@@ -293,6 +292,12 @@ class DictGen:
             while not template_closed(o) and guard < 20:
                 guard += 1
                 self._close_or_strip(o)
+        if not self.cfg.get("shape_change"):
+            # no non-container value at a key the programs read through (open finding KF-scalar-at-section-prefix)
+            for pfx, empty in (("S", {}), ("S.T", {}), ("L", [])):
+                ok, v = lookup(pfx, o)
+                if ok and not isinstance(v, (dict, list)):
+                    set_path(o, pfx, copy.deepcopy(empty))
         if not self.cfg.get("tmpl_in_container"):
             # no templated strings inside lists
             for k, v in list(o.items()):
